@@ -74,9 +74,6 @@ package jobs
 //@   pure
 //@   ensures result == isFullP(recv)
 
-//@ assumed context.WithCancel
-//@   pure
-
 //@ unit (*raffle).borrowTicket
 //@   prop C11
 //@   requires [callers-hold-no-lock-at-or-above-the-raffle] forall l int :: has($held, l) ==> lockLevel(l) < 6
@@ -679,8 +676,18 @@ package jobs
 // loop that calls parseSource recursively on definitions built on the fly - leaves the solvers without an answer)
 //@ assumed (*Scheduler).parseSource
 //@   preserves Scheduler.*, JobConfiguration.*, Runner.*, []*jobs.JobConfiguration
-//@ assumed (*Scheduler).parseTransform
+// a definition's transform section either yields a usable transform object, no transform at all, or an error: never an
+// interface value that is non-nil but wraps a nil pointer (the pipelines test `transform != nil` before they call it)
+//@ assumed jobs.NewJavascriptTransform
+//@   preserves Scheduler.*, JobConfiguration.*, Runner.*, []*jobs.JobConfiguration, Store.*
+//@   ensures ret1 == nil ==> ret0 != nil && fresh(ret0)
+//@ unit (*Scheduler).parseTransform
+//@   prop C11 C10
+//@   requires s != nil && config != nil
+//@   requires-inv [a-scheduler-is-constructed-with-its-store] s != nil ==> s.Store != nil
 //@   preserves Scheduler.*, JobConfiguration.*, Runner.*, []*jobs.JobConfiguration
+//@   ensures [C11,C10:a-parsed-transform-is-a-usable-object-or-no-transform-at-all-never-a-nil-pointer-behind-a-non-nil-interface] ret0 != nil ==> ifacePtr(ret0) != 0
+//@   ensures [C11,C10:an-unusable-transform-section-yields-no-transform] ret1 != nil ==> ret0 == nil
 //@ unit (*ErrorHandler).init
 //@   prop C17
 //@   requires h != nil
